@@ -24,10 +24,11 @@ class Result:
         self.witness = None  # python-level description of a counter-model
         self.smt2 = None
         self.models_tried = 0
+        self.cross = None  # thorough tier: verdicts of cvc5 on the queries z3 proved {"unsat": n, "unknown": n, "sat": n}
 
     def as_dict(self):
         return {k: getattr(self, k) for k in ("name", "kind", "func", "text", "expect", "status", "backend", "ms",
-                                               "queries", "note", "witness")}
+                                               "queries", "note", "witness", "cross")}
 
 
 def _mk_solver(assumptions, goal, timeout_ms):
@@ -178,7 +179,7 @@ def bounded_model_search(assumptions, goal, timeout_ms, bound=3, total_s=25.0):
     return last
 
 
-def discharge(ob, timeout_ms=10000, use_cvc5=True, extract=None, max_models=1):
+def discharge(ob, timeout_ms=10000, use_cvc5=True, extract=None, max_models=1, cross_check=False):
     """-> Result.  `extract(model, case)` turns a z3 model into a python-level witness."""
     r = Result(ob)
     t0 = time.time()
@@ -253,6 +254,18 @@ def discharge(ob, timeout_ms=10000, use_cvc5=True, extract=None, max_models=1):
                 r.ms = (time.time() - t0) * 1000
                 return r
         if res == z3.unsat:
+            if cross_check and r.backend == "z3":
+                # second opinion on a z3 proof: the same query, printed as SMT-LIB, decided by cvc5.  `sat` there is a
+                # disagreement between the solvers: the obligation is not counted as proved
+                try:
+                    cres = run_cvc5(s.to_smt2().replace("(check-sat)", ""), min(timeout_ms, 15000))
+                except Exception:
+                    cres = "unknown"
+                r.cross = r.cross or {"unsat": 0, "unknown": 0, "sat": 0}
+                r.cross[cres if cres in ("unsat", "sat") else "unknown"] += 1
+                if cres == "sat":
+                    status = "undecided"
+                    r.note = "solver disagreement: z3 unsat, cvc5 sat (%s)" % note
             continue
         if res == z3.unknown:
             for bound in (3,):
